@@ -40,7 +40,11 @@ pub fn record_program(name: &str, src: &str, only: Option<&[String]>, trace: &mu
         }
     }
     out.evaluations += 1;
-    let rec = json!({"k": "detect", "src": name, "tree": tree.to_json_with_lines(src), "results": Value::Object(results), "panicked": panicked});
+    let mut rec = json!({"k": "detect", "src": name, "tree": tree.to_json_with_lines(src), "results": Value::Object(results), "panicked": panicked});
+    if name.starts_with("relayout:") {
+        // re-laid-out texts are not kept elsewhere: a replay needs them
+        rec["text"] = json!(src);
+    }
     trace.push(&rec);
     true
 }
